@@ -289,10 +289,25 @@ class _AlphaComp(ast.NodeTransformer):
     visit_ListComp = visit_SetComp = visit_GeneratorExp = visit_DictComp = _do
 
 
+class _SymOrder(ast.NodeTransformer):
+    """== and != everywhere (also in comprehension filters): operands ordered by source text, constants to the right; done after the
+    comprehension variables have their canonical names so that the order does not depend on how a variable was called"""
+
+    def visit_Compare(self, n):
+        self.generic_visit(n)
+        if len(n.ops) == 1 and isinstance(n.ops[0], (ast.Eq, ast.NotEq)):
+            l, r = n.left, n.comparators[0]
+            if (isinstance(l, ast.Constant) and not isinstance(r, ast.Constant)) or \
+                    (not isinstance(l, ast.Constant) and not isinstance(r, ast.Constant) and unparse(l) > unparse(r)):
+                return ast.copy_location(ast.Compare(left=r, ops=n.ops, comparators=[l]), n)
+        return n
+
+
 def alpha(f):
     """two passes: first every comprehension variable gets a globally unique name (no capture possible), then the canonical _k<depth>"""
     f = _AlphaComp(True).visit(f)
-    return _AlphaComp(False).visit(f)
+    f = _AlphaComp(False).visit(f)
+    return _SymOrder().visit(f)
 
 
 def structural(fn):
